@@ -27,6 +27,7 @@ func checkC19(c *Ctx) {
 	c.Rule("C19/R7", "results are immutable: in the legacy reader every write to the current label map happens after the map was replaced by a copy in the same call; labels added by the server (permanent labels) are never set or removed by file content")
 
 	c.Rule("C19/R8", "filter before limit in the upload listing: wherever the listing query is cut with LIMIT n over a per-upload record count that can be zero (the correlated COUNT(*) of the empty-query path), the text before the LIMIT already contains the rCount > 0 condition, so empty or aborted uploads do not use up the n newest slots")
+	c.Rule("C19/R9", "the labels the server adds belong to one file (same rule as the per-file clause of C20/R6): the label map handed on with each uploaded part is made per part, or every key set in the loop is set on every path")
 	p := mustLoad(c, loadOpts{}, "./storage/db", "./storage/query", "./storage/benchfmt", "./storage/app", "./storage", "./analysis/app", "./benchfmt")
 	c19Merge(c, p)
 	c19SQL(c, p)
@@ -36,6 +37,7 @@ func checkC19(c *Ctx) {
 	c19Siblings(c, p)
 	c19Immutable(c, p)
 	c19Limit(c, p)
+	c20FreshMetaAll(c, p, "C19/R9")
 }
 
 // ---- R1 ----
